@@ -242,7 +242,13 @@ def family_siblings(tier, seed, n=None):
                 ops.append({"op": "list", "kind": "l_append", "p": "o1." + rnd.choice(["ol[0]", "ol[1]", "s1"]) + ".il", "vs": [bits(rnd.randrange(4), 2)]})
             ops.append({"op": "call", "call": rnd.choice([mcall("o1"), mcall("o2"),
                                                           {"kind": "free", "roots": ["o1.s2"], "owner": "", "inline": []},
-                                                          wcall([E(B("ne", F("s1.x"), F("ol[0].x")))], "o1")])})
+                                                          wcall([E(B("ne", F("s1.x"), F("ol[0].x")))], "o1"),
+                                                          # rooted at ONE member, the inline constraint reaches an element of the sibling
+                                                          # object list (and another member): those are constants of the call
+                                                          {"kind": "free_with", "roots": ["o1.s2"], "owner": "",
+                                                           "inline": [E(B("ne", F("o1.s2.x"), F("o1.ol[%d].x" % (i % 2)))), E(B("le", F("o1.s2.x"), F("o1.s3.x")))]},
+                                                          {"kind": "free_with", "roots": ["o1.s1"], "owner": "",
+                                                           "inline": [E(B("ne", F("o1.s1.x"), F("o1.ol[1].x")))]}])})
             if rnd.random() < 0.35:
                 # the object list is emptied and refilled with fresh objects: ol[K] now denotes the NEW element
                 ops.append({"op": "ol_refill", "p": "o1.ol"})
